@@ -216,12 +216,17 @@ def _value_harness(kind, mode, n, p, s, e):
     def run(eng, acc):
         with proxy.settings(exact=True):
             cost, _, par = _cost(kind, mode, p)
-            c = cost.fit(X)
             err = None
             try:
+                c = cost.fit(X)
                 out = c.evaluate(np.array([[s, e]]))
             except RuntimeError as ex:
                 err = ex
+            except Exception as ex:
+                # the code reached something the symbolic values cannot pass (e.g. float(param)): not a crash of the harness
+                # but a failed obligation; the replay then decides natively, at the model's point and at further fixed points
+                acc.concrete(f"{kind}.{mode}.value", False, dict(info, symbolic_run=f"not possible: {type(ex).__name__}: {ex}"[:160]), eng=eng)
+                return
             ncols = 1 if kind == "gcov" else p
             if kind == "gcov":
                 ref, d = reference(kind, mode, par, X, s, e, 0)
@@ -417,6 +422,35 @@ def replay(cx):
     env = {k: float(Fraction(v)) for k, v in model.items() if _isnum(v)}
     Xf = np.array([[env.get(f"x_{i}_{j}", 0.0) for j in range(p)] for i in range(n)])
     key = f"{cx['ob']}|{kind}|{mode}"
+    if info.get("symbolic_run"):
+        # no informative model: the model's point plus deterministic data / parameter points (valid parameters by construction)
+        rng = np.random.default_rng(101)
+        tries = [(env, Xf)]
+        for t in range(6):
+            e2 = dict(env)
+            e2["mu"], e2["var"], e2["cv"] = float(rng.integers(-3, 4)), float(rng.integers(1, 9)) / 2, float(rng.integers(1, 9)) / 2 + 0.25
+            for j in range(p):
+                e2[f"mu_{j}"], e2[f"var_{j}"] = float(rng.integers(-3, 4)), float(rng.integers(1, 9)) / 2
+            for a in range(p):
+                for b in range(a, p):
+                    e2[f"s_{a}_{b}"] = 2.0 + a if a == b else 0.5
+            tries.append((e2, rng.integers(-8, 9, size=(n, p)) / 2.0))
+        c = [info["s"], info["e"]]
+        for e2, X2 in tries:
+            with proxy.native():
+                try:
+                    got = _native_cost(kind, mode, p, e2).fit(X2).evaluate(np.array([c]))
+                except RuntimeError:
+                    continue
+                except Exception as ex:
+                    return dict(reproduced=True, key=key + "|" + type(ex).__name__, what=f"{kind}/{mode} evaluate([{c}]) raised {type(ex).__name__}: {ex}"[:400])
+            w = _plain_definition(kind, mode, p, e2, X2, c[0], c[1])
+            if isinstance(w, Exception):
+                continue
+            if not np.allclose(got[0], np.atleast_1d(w), rtol=1e-6, atol=1e-7):
+                pars = {k: v for k, v in e2.items() if not k.startswith('x_') and '#' not in k}
+                return dict(reproduced=True, key=key, what=f"evaluate([{c}]) = {got[0].tolist()} but the definition gives {np.atleast_1d(w).tolist()} [X={np.asarray(X2).tolist()}, params={pars}]"[:700])
+        return dict(reproduced=False, key=key, what=f"the symbolic run was not possible ({info['symbolic_run']}); natively the values equal the definition at {len(tries)} points")
     with proxy.native():
         cost = _native_cost(kind, mode, p, env)
         cost.fit(Xf)
